@@ -323,10 +323,17 @@ def _run_router(case):
     try:
         config = _impl['Configurator']()
         for i, d in enumerate(case['decls']):
-            preds = [_mk_pred(p, i, calls) for p in d['preds']]
-            _add_route_nested(config, list(d.get('levels') or []), d['name'], d['pattern'],
-                              dict(static=bool(d['static']), custom_predicates=preds,
-                                   **({'inherit_slash': True} if d.get('inherit') else {})))
+            # exactly one method predicate: the real request_method= predicate (RequestMethodPredicate through the
+            # default route predicate list); everything else as custom predicates
+            meth = [p for p in d['preds'] if p[0] == 'method']
+            real = meth[0] if len(meth) == 1 else None
+            preds = [_mk_pred(p, i, calls) for p in d['preds'] if p is not real]
+            kw = dict(static=bool(d['static']), custom_predicates=preds)
+            if real is not None:
+                kw['request_method'] = real[1]
+            if d.get('inherit'):
+                kw['inherit_slash'] = True
+            _add_route_nested(config, list(d.get('levels') or []), d['name'], d['pattern'], kw)
             if not d['static'] and d['name'] not in seen:
                 config.add_view(view, route_name=d['name'])
             seen[d['name']] = i
